@@ -433,3 +433,72 @@ pub fn same_lead_sibling(text: &str) -> Option<String> {
     }
     if done { Some(out) } else { None }
 }
+
+/// A `serde::Serializer` that accepts exactly one shape — a single string — and records it. Every other shape (newtype
+/// struct, bytes, sequence, …) is an error naming the shape. "Serialising a pointer emits exactly its text as one string"
+/// is checked against this, not against a format that flattens wrappers (serde_json treats a newtype struct as its content).
+pub struct OnlyStr;
+#[derive(Debug)]
+pub struct Shape(pub String);
+impl std::fmt::Display for Shape {
+    fn fmt(&self, f: &mut std::fmt::Formatter<'_>) -> std::fmt::Result {
+        f.write_str(&self.0)
+    }
+}
+impl std::error::Error for Shape {}
+impl serde::ser::Error for Shape {
+    fn custom<T: std::fmt::Display>(msg: T) -> Self {
+        Shape(msg.to_string())
+    }
+}
+macro_rules! refuse {
+    ($($name:ident($($t:ty),*)),* $(,)?) => { $(fn $name(self $(, _: $t)*) -> Result<String, Shape> { Err(Shape(stringify!($name).to_string())) })* };
+}
+impl serde::Serializer for OnlyStr {
+    type Ok = String;
+    type Error = Shape;
+    type SerializeSeq = serde::ser::Impossible<String, Shape>;
+    type SerializeTuple = serde::ser::Impossible<String, Shape>;
+    type SerializeTupleStruct = serde::ser::Impossible<String, Shape>;
+    type SerializeTupleVariant = serde::ser::Impossible<String, Shape>;
+    type SerializeMap = serde::ser::Impossible<String, Shape>;
+    type SerializeStruct = serde::ser::Impossible<String, Shape>;
+    type SerializeStructVariant = serde::ser::Impossible<String, Shape>;
+    fn serialize_str(self, v: &str) -> Result<String, Shape> {
+        Ok(v.to_string())
+    }
+    refuse!(serialize_bool(bool), serialize_i8(i8), serialize_i16(i16), serialize_i32(i32), serialize_i64(i64), serialize_u8(u8),
+        serialize_u16(u16), serialize_u32(u32), serialize_u64(u64), serialize_f32(f32), serialize_f64(f64), serialize_char(char),
+        serialize_bytes(&[u8]), serialize_none(), serialize_unit(), serialize_unit_struct(&'static str),
+        serialize_unit_variant(&'static str, u32, &'static str));
+    fn serialize_some<T: ?Sized + serde::Serialize>(self, _: &T) -> Result<String, Shape> {
+        Err(Shape("serialize_some".into()))
+    }
+    fn serialize_newtype_struct<T: ?Sized + serde::Serialize>(self, _: &'static str, _: &T) -> Result<String, Shape> {
+        Err(Shape("serialize_newtype_struct".into()))
+    }
+    fn serialize_newtype_variant<T: ?Sized + serde::Serialize>(self, _: &'static str, _: u32, _: &'static str, _: &T) -> Result<String, Shape> {
+        Err(Shape("serialize_newtype_variant".into()))
+    }
+    fn serialize_seq(self, _: Option<usize>) -> Result<Self::SerializeSeq, Shape> {
+        Err(Shape("serialize_seq".into()))
+    }
+    fn serialize_tuple(self, _: usize) -> Result<Self::SerializeTuple, Shape> {
+        Err(Shape("serialize_tuple".into()))
+    }
+    fn serialize_tuple_struct(self, _: &'static str, _: usize) -> Result<Self::SerializeTupleStruct, Shape> {
+        Err(Shape("serialize_tuple_struct".into()))
+    }
+    fn serialize_tuple_variant(self, _: &'static str, _: u32, _: &'static str, _: usize) -> Result<Self::SerializeTupleVariant, Shape> {
+        Err(Shape("serialize_tuple_variant".into()))
+    }
+    fn serialize_map(self, _: Option<usize>) -> Result<Self::SerializeMap, Shape> {
+        Err(Shape("serialize_map".into()))
+    }
+    fn serialize_struct(self, _: &'static str, _: usize) -> Result<Self::SerializeStruct, Shape> {
+        Err(Shape("serialize_struct".into()))
+    }
+    fn serialize_struct_variant(self, _: &'static str, _: u32, _: &'static str, _: usize) -> Result<Self::SerializeStructVariant, Shape> {
+        Err(Shape("serialize_struct_variant".into()))
+    }
+}
